@@ -3,6 +3,7 @@ package colvet
 import (
 	"fmt"
 	"go/token"
+	"go/types"
 	"strings"
 
 	"golang.org/x/tools/go/ssa"
@@ -535,6 +536,27 @@ func rulePoolRelease(r *Report) {
 				}
 			}
 		}
+		// put back twice: the pool hands the same object to two users
+		putObj := func(p ssa.Instruction) ssa.Value {
+			cc, _, _ := callCommon(p)
+			obj := cc.Args[1]
+			for {
+				if mi, ok := obj.(*ssa.MakeInterface); ok {
+					obj = mi.X
+					continue
+				}
+				break
+			}
+			return norm(obj)
+		}
+		for i, p1 := range puts {
+			for _, p2 := range puts[i+1:] {
+				o1, o2 := putObj(p1), putObj(p2)
+				if o1 != nil && o1 == o2 && (canReach(p1, p2) || canReach(p2, p1)) {
+					bad = r.P.InstrPos(p2) + ": the object is put back into the pool twice"
+				}
+			}
+		}
 		h.Check(bad == "", fnName(fn), r.P.Pos(fn.Pos()), "pooled objects are not used after their release", "a pooled object is used after it was released ("+bad+"): the next Get — another goroutine merging in another block — receives the same object while this one still reads or writes it")
 	}
 	_ = n
@@ -704,4 +726,149 @@ func ruleRegistryWritersSerial(r *Report) {
 			setWitness(o, a.bad)
 		}
 	}
+}
+
+// ruleRecordMerge (C09.record): the merge the library installs in a record column decodes the stored
+// bytes into one scratch record and the delta's bytes into another, and hands (stored, delta) to the
+// user's strategy in that order.
+func ruleRecordMerge(r *Report) {
+	h := r.Rule("C09.record", "def-use", "the record column's merge decodes the stored value (its first argument) and the delta (its second) into two different scratch records and calls the merge strategy with (stored, delta)", 1)
+	fn := r.Anchor("column.ForRecord")
+	if fn == nil {
+		return
+	}
+	var done bool
+	// the merge function is found by shape wherever it lives (a closure of ForRecord, a method of a
+	// merger type, a closure returned by a generic helper): (…, stored string, delta string) string
+	// that decodes both with UnmarshalBinary
+	var cands []*ssa.Function
+	for f := range r.P.modFunc {
+		if f.Origin() == nil && r.P.inColumnPkg(f) {
+			cands = append(cands, f)
+		}
+	}
+	sortFuncs(cands)
+	for _, f := range cands {
+		if done || f == fn || len(f.Params) < 2 || f.Signature.Results().Len() != 1 {
+			continue
+		}
+		isStr := func(t types.Type) bool {
+			b, ok := t.Underlying().(*types.Basic)
+			return ok && b.Kind() == types.String
+		}
+		pv, pd := f.Params[len(f.Params)-2], f.Params[len(f.Params)-1]
+		if !isStr(pv.Type()) || !isStr(pd.Type()) || !isStr(f.Signature.Results().At(0).Type()) {
+			continue
+		}
+		type dec struct {
+			recv ssa.Value
+			ins  ssa.Instruction
+		}
+		var fromV, fromD []dec
+		var strat []ssa.Instruction
+		deepVisit(f, func(ins, _ ssa.Instruction) {
+			cc, _, _ := callCommon(ins)
+			if cc == nil {
+				return
+			}
+			if cc.IsInvoke() && cc.Method.Name() == "UnmarshalBinary" && len(cc.Args) == 1 && ins.Parent() == f {
+				isP := func(p *ssa.Parameter) func(ssa.Value) bool {
+					return func(z ssa.Value) bool { return z == ssa.Value(p) }
+				}
+				if dependsOn(cc.Args[0], isP(pv), 8) {
+					fromV = append(fromV, dec{norm(cc.Value), ins})
+				}
+				if dependsOn(cc.Args[0], isP(pd), 8) {
+					fromD = append(fromD, dec{norm(cc.Value), ins})
+				}
+			}
+			// the strategy: a call of a captured function value with two arguments
+			if !cc.IsInvoke() && cc.StaticCallee() == nil && len(cc.Args) == 2 && ins.Parent() == f {
+				if _, isBuiltin := cc.Value.(*ssa.Builtin); !isBuiltin {
+					strat = append(strat, ins)
+				}
+			}
+		})
+		if len(fromV)+len(fromD) == 0 {
+			continue // not the merge function
+		}
+		done = true
+		ok := len(fromV) == 1 && len(fromD) == 1 && len(strat) == 1
+		why := "the stored value and the delta are not decoded exactly once each, or the strategy is not called exactly once"
+		pos := r.P.Pos(f.Pos())
+		if ok {
+			sv, sd := fromV[0].recv, fromD[0].recv
+			cc, _, _ := callCommon(strat[0])
+			pos = r.P.InstrPos(strat[0])
+			switch {
+			case sv == sd:
+				ok, why = false, "the stored value and the delta are decoded into the same scratch record"
+			case norm(cc.Args[0]) != sv || norm(cc.Args[1]) != sd:
+				ok, why = false, "the strategy is not called with (decoded stored value, decoded delta)"
+			case !(precedes(fromV[0].ins, strat[0]) && precedes(fromD[0].ins, strat[0])):
+				ok, why = false, "the strategy is called before both records were decoded"
+			}
+		}
+		h.Check(ok, "column.ForRecord/merge", pos, "decode(stored) → a, decode(delta) → b, strategy(a, b)", "the record merge is mis-wired: "+why+" — a merged record is computed from the wrong inputs")
+	}
+	if !done {
+		h.Unknown("column.ForRecord/merge", r.P.Pos(fn.Pos()), "the merge closure of the record column was not recognised")
+	}
+}
+
+// ruleFilterCacheKey (C04.cache): the enum filter remembers the verdict of the last string it looked
+// at; the remembered key is the one the verdict was computed for — the value stored into the key cell
+// is the value the cell is compared with.
+func ruleFilterCacheKey(r *Report) {
+	h := r.Rule("C04.cache", "def-use", "a one-entry verdict cache in a filter is keyed by what the verdict was computed from: the value stored into the key cell is the value the cell is compared with", 1)
+	fn := r.Anchor("(*column.columnEnum).FilterString")
+	if fn == nil {
+		return
+	}
+	n := 0
+	var bad ssa.Instruction
+	for _, g := range deepFuncs(fn) {
+		type cmp struct {
+			addr, other ssa.Value
+		}
+		var cmps []cmp
+		allInstrs(g, func(ins ssa.Instruction) {
+			bo, ok := ins.(*ssa.BinOp)
+			if !ok || (bo.Op != token.EQL && bo.Op != token.NEQ) {
+				return
+			}
+			for _, pr := range [][2]ssa.Value{{bo.X, bo.Y}, {bo.Y, bo.X}} {
+				ld, isLd := strip(pr[0]).(*ssa.UnOp)
+				if !isLd || ld.Op != token.MUL {
+					continue
+				}
+				if _, isFA := ld.X.(*ssa.FieldAddr); !isFA {
+					continue
+				}
+				if _, isC := strip(pr[1]).(*ssa.Const); isC {
+					continue
+				}
+				cmps = append(cmps, cmp{ld.X, pr[1]})
+			}
+		})
+		allInstrs(g, func(ins ssa.Instruction) {
+			st, ok := ins.(*ssa.Store)
+			if !ok {
+				return
+			}
+			for _, c := range cmps {
+				if sameExpr(st.Addr, c.addr) {
+					n++
+					if !sameExpr(st.Val, c.other) {
+						bad = ins
+					}
+				}
+			}
+		})
+	}
+	if n == 0 {
+		h.OK("(*column.columnEnum).FilterString", r.P.Pos(fn.Pos()), "no verdict cache")
+		return
+	}
+	h.Check(bad == nil, "(*column.columnEnum).FilterString", r.P.InstrPos(bad), "the cache key stored is the key compared", "the filter's verdict cache is keyed by a value other than the one it is compared with: a later row whose string location happens to equal the stored key gets another string's verdict")
 }
